@@ -496,7 +496,8 @@ ExecIters(M, s, lo, stp, it, trip) ==
            Mb == IF marked THEN [M0 EXCEPT !.rd = {}, !.ard = {}, !.wr = {}] ELSE M0
            M1 == ExecSeq(Mb, s.body, 1)
            M2 == IF marked
-                 THEN [M1 EXCEPT !.iters = Append(@, [rd |-> M1.rd, ard |-> M1.ard, wr |-> M1.wr]),
+                 THEN [M1 EXCEPT !.iters = Append(@, [rd |-> M1.rd, ard |-> M1.ard, wr |-> M1.wr,
+                                                      grp |-> M0.grp]),
                                  !.rd = M0.rd \cup (M1.rd \ M0.wr), !.ard = M0.ard \cup M1.ard,
                                  !.wr = M0.wr \cup M1.wr]
                  ELSE M1
@@ -622,7 +623,10 @@ ExecStmt(M, s) ==
             ELSE IF lo.t # "i" \/ hi.t # "i" \/ stp.t # "i" THEN Ub(M0)
             ELSE IF stp.v = 0 THEN Ub(M0)
             ELSE IF ~Known(M, s.var) THEN Ub(M0)
-            ELSE ExecIters(M0, s, lo.v, stp.v, 1, LoopTrip(lo.v, hi.v, stp.v))
+            ELSE \* grp numbers the executions of marked loops: iteration records of
+                 \* different executions of the same (inner) loop are not compared
+                 ExecIters(IF "mark" \in DOMAIN s /\ s.mark THEN [M0 EXCEPT !.grp = @ + 1] ELSE M0,
+                           s, lo.v, stp.v, 1, LoopTrip(lo.v, hi.v, stp.v))
     [] s.k = "if" ->
          LET c == CondVal(M, s.cond)
              M0 == NoteReads(M, ExprReads(M, s.cond)) IN
@@ -643,6 +647,32 @@ ExecStmt(M, s) ==
          IF M1.sig = "" THEN [M1 EXCEPT !.out = Append(@, <<"end", s.name>>)] ELSE M1
     [] s.k = "event" -> [M EXCEPT !.out = Append(@, <<s.what, s.name>>)]
     [] s.k = "block" -> ExecSeq(M, s.body, 1)
+    [] s.k = "track" ->
+         \* run the body with access tracking on and append one access record
+         \* [rd (upward-exposed reads), ard (all reads), wr (writes), sig, replay]
+         \* to M.iters.  With s.inputs (a sequence of names) the body is also
+         \* re-executed from a store in which every other variable is undefined
+         \* (the replay clause of C12): replay = "ok" | "ub" | set of differing names.
+         LET Mb == [M EXCEPT !.rd = {}, !.ard = {}, !.wr = {}, !.trk = TRUE]
+             M1 == ExecSeq(Mb, s.body, 1)
+             rep == IF "inputs" \notin DOMAIN s THEN "none"
+                    ELSE LET keep == SeqSet(s.inputs)
+                             pst == [nm \in DOMAIN M.st |->
+                                       IF nm \in keep THEN M.st[nm]
+                                       ELSE [M.st[nm] EXCEPT !.d = [p \in DOMAIN M.st[nm].d |-> POISON]]]
+                             Mr == ExecSeq([Mb EXCEPT !.st = pst], s.body, 1)
+                         IN IF Mr.sig = "ub" THEN "ub"
+                            ELSE IF M1.sig = "ub" THEN "none"
+                            ELSE LET outs == {l[1] : l \in M1.wr} \cap DOMAIN M.st
+                                     bad == {nm \in outs :
+                                               \E p \in DOMAIN M1.st[nm].d :
+                                                  /\ <<nm, p>> \in M1.wr
+                                                  /\ M1.st[nm].d[p] # Mr.st[nm].d[p]}
+                                 IN IF bad = {} THEN "ok" ELSE "diff"
+         IN [M1 EXCEPT !.iters = Append(@, [rd |-> M1.rd, ard |-> M1.ard, wr |-> M1.wr,
+                                            sig |-> M1.sig, replay |-> rep, grp |-> 0]),
+                       !.rd = M.rd \cup (M1.rd \ M.wr), !.ard = M.ard \cup M1.ard,
+                       !.wr = M.wr \cup M1.wr, !.trk = M.trk]
     [] s.k = "nop" -> M
     [] OTHER -> Ub(M)
 
@@ -669,6 +699,9 @@ InitCell(dcl, pos, fm, val) ==
                IF dcl.init = "poison" THEN POISON
                ELSE IF dcl.init = "zero" THEN Conv(dcl.ty, VI(0))
                ELSE IF Len(dcl.dims) = 0 THEN val
+               ELSE IF "data" \in DOMAIN dcl       \* explicit contents per fill mode (index arrays)
+               THEN LET row == dcl.data[((fm - 1) % Len(dcl.data)) + 1] IN
+                    Conv(dcl.ty, VI(row[((p - 1) % Len(row)) + 1]))
                ELSE FillVal(dcl.ty, fm, pos, p)]]
 
 \* scalar value from a JSON input value: int, bool, or <<n, d>> for a real
@@ -686,7 +719,7 @@ InitStore(decls, dom, val, fm) ==
 
 NewMachine(st, subs, trk) ==
   [st |-> st, env |-> <<>>, sig |-> "", rd |-> {}, ard |-> {}, wr |-> {}, out |-> <<>>,
-   iters |-> <<>>, trk |-> trk, subs |-> subs, depth |-> 0]
+   iters |-> <<>>, trk |-> trk, subs |-> subs, depth |-> 0, grp |-> 0]
 
 \* all valuations of a domain list dom = << <<name, <<v1, v2, ...>>>>, ... >>
 RECURSIVE Valuations(_, _)
